@@ -209,7 +209,13 @@ func (or *ObjectRegistry) applyConfig(config map[string]string) {
 			continue
 		}
 
-		if prevEntity != nil {
+		if prevEntity != nil && prevEntity.Spec().Kind() != entity.Spec().Kind() {
+			// The kind of the name changed. An object can't inherit from
+			// an object of another kind, so close the old one and
+			// initialize the new one.
+			deleted[name] = prevEntity
+			created[name] = entity
+		} else if prevEntity != nil {
 			updated[name] = entity
 		} else {
 			created[name] = entity
